@@ -8,15 +8,18 @@
 #include "src/polyseed.c"
 #include "contracts/spec.h"
 
+#ifndef SRC_OBJ
+#define SRC_OBJ POLYSEED_STR_SIZE     /* size of the source string object; the loop itself is closed by invariant */
+#endif
 static size_t h_len;
 size_t verif_strlen_ghost(const char* s) { return h_len; }
 
 void harness(void) {
     polyseed_str buf, snap;
-    size_t S = nondet_size(), n = POLYSEED_STR_SIZE;
-    char src[POLYSEED_STR_SIZE];
+    size_t S = nondet_size(), n = SRC_OBJ;
+    char src[SRC_OBJ];
     __CPROVER_assume(h_len < n && src[h_len] == '\0');
-    __CPROVER_assume(__CPROVER_forall { size_t k; (k < POLYSEED_STR_SIZE) ==> (k >= h_len || src[k] != '\0') });
+    __CPROVER_assume(__CPROVER_forall { size_t k; (k < SRC_OBJ) ==> (k >= h_len || src[k] != '\0') });
     __CPROVER_assume(S < POLYSEED_STR_SIZE && S + h_len < POLYSEED_STR_SIZE);
     for (int i = 0; i < POLYSEED_STR_SIZE; ++i) snap[i] = buf[i];
     __CPROVER_assume(g_k < POLYSEED_STR_SIZE);
